@@ -434,6 +434,11 @@ def run_cli(case):
                 "too many indices for array" in last and "_get_optimal_div" in p.stderr
             ):
                 return {"err": "no_ranked_groups"}
+            # a PEP cell the parser cannot convert: the command line dies with the parser's own exception
+            if last.startswith("ValueError: could not convert string to float") or (
+                last.startswith("TypeError: ufunc 'isnan' not supported")
+            ):
+                return {"err": "bad_score_cell"}
             return {"exc": "CLI", "msg": last[:300], "tb": p.stderr[-1200:]}
         with open(out, newline="", encoding="utf-8") as fh:
             rows = list(csv.reader(fh, delimiter="\t"))
@@ -1455,11 +1460,13 @@ class P(Prop):
         and every reported protein is one the ingested list names"""
         if not isinstance(out, dict):
             return "command line returned %r" % (out,)
+        want, info = expected(case)
+        if info["refused"] or out.get("err") == "bad_score_cell":
+            return self.refusal_verdict(info, out)
         if out.get("err") == "no_ranked_groups":
             return None
         if "groups" not in out:
             return "command line failed: %s" % (out.get("msg"),)
-        want, _ = expected(case)
         return self.groups_verdict(want, out["groups"])
 
     def groups_verdict(self, want, groups):
@@ -1880,6 +1887,8 @@ class P(Prop):
                     stats["tables"] += 1
                     stats["groups"] += len(o["groups"])
                     stats["decoy_groups"] += sum(1 for g in o["groups"] if o_decoy_list(g))
+                elif isinstance(o, dict) and o.get("err") == "bad_score_cell":
+                    stats["refused_bad_score_cell"] = stats.get("refused_bad_score_cell", 0) + 1
                 elif isinstance(o, dict) and o.get("err"):
                     stats["no_ranked_groups"] += 1
                 if why is not None and len(fails) < 3:
